@@ -433,3 +433,229 @@ Proof.
   - destruct (run tx_fuel w _ []) as [[w1 tr1]|] eqn:E; cbn [fst]; [|split; assumption].
     eapply tx_books_preserved; eauto.
 Qed.
+
+(** ** which transactions are pricing transactions *)
+Lemma run_stack_in_trace : forall fuel w stk tr w' tr',
+  run fuel w stk tr = Some (w', tr') -> forall sm, In sm stk \/ In sm tr -> In sm tr'.
+Proof.
+  induction fuel as [|f IH]; intros w stk tr w' tr' H sm Hi.
+  - destruct stk as [|[s m] rest]; cbn [run] in H; [|discriminate]. inversion H; subst.
+    destruct Hi as [[]|Hi]; exact Hi.
+  - destruct stk as [|[s m] rest]; cbn [run] in H.
+    + inversion H; subst. destruct Hi as [[]|Hi]; exact Hi.
+    + bind_inv H as r Hr. eapply IH; [exact H|].
+      destruct Hi as [[<-|Hi]|Hi].
+      * right. apply in_or_app. right. left. reflexivity.
+      * left. apply in_or_app. right. exact Hi.
+      * right. apply in_or_app. left. exact Hi.
+Qed.
+
+(** every message emitted by the root call of a successful transaction is executed *)
+Lemma root_emitted_in_trace w sender target m funds w' tr w1 out :
+  run tx_fuel w [(sender, MWasm target m funds)] [] = Some (w', tr) ->
+  step_msg w sender (MWasm target m funds) = Some (w1, out) ->
+  In (sender, MWasm target m funds) tr /\ forall sm, In sm out -> In sm tr.
+Proof.
+  intros H Hs. split.
+  - eapply run_stack_in_trace; [exact H|]. left. left. reflexivity.
+  - unfold tx_fuel in H. cbn [run] in H. rewrite Hs in H. cbn [bind fst snd] in H.
+    intros sm Hi. eapply run_stack_in_trace; [exact H|]. left. apply in_or_app. left. exact Hi.
+Qed.
+
+Lemma pricing_in_trace tr sm : In sm tr -> is_pricing_msg sm = true -> existsb is_pricing_msg tr = true.
+Proof. intros Hi Hp. apply existsb_exists. exists sm. auto. Qed.
+
+(** a successful cw20 Send to a contract executes that contract's Receive hook *)
+Theorem token_send_reaches_hub w sender target c amt hk funds w' tr :
+  target = A_bsei \/ target = A_stsei ->
+  run tx_fuel w [(sender, MWasm target (WCw20 (CSend c amt hk)) funds)] [] = Some (w', tr) ->
+  In (target, MWasm c (WHub (HReceive sender amt hk)) []) tr.
+Proof.
+  intros Ht H.
+  assert (Hs : exists w1 out, step_msg w sender (MWasm target (WCw20 (CSend c amt hk)) funds) = Some (w1, out)).
+  { unfold tx_fuel in H. cbn [run] in H. destruct (step_msg w sender _) as [[w1 out]|]; [eauto|discriminate]. }
+  destruct Hs as (w1 & out & Hs).
+  apply (root_emitted_in_trace _ _ _ _ _ _ _ _ _ H Hs).
+  apply step_msg_inv in Hs. destruct Hs as [e' _ _ Hn | to wm f e1 o Hm Hsend Hc ->]; [exfalso; eapply Hn; reflexivity|].
+  inversion Hm; subst to wm f. clear Hm.
+  apply in_map_iff. exists (MWasm c (WHub (HReceive sender amt hk)) []). split; [reflexivity|].
+  destruct Hc as [h hm h' E1 E2 Hw He -> | r rm r' E1 E2 Hw He -> | d dm d' E1 E2 Hw He ->
+                 | g gm g' E1 E2 Hw He -> | t cm t' E1 E2 Hw He -> | t cm t' E1 E2 Hw He ->
+                 | sm e' E1 E2 He -> -> | E1 -> ->]; try discriminate E2;
+    try (destruct E2 as [E2|(n & E2 & _)]; discriminate E2);
+    try (destruct Ht as [Ht|Ht]; rewrite Ht in E1; vm_compute in E1; discriminate E1).
+  - (* bSei *) inversion E2; subst cm. unfold bsei_execute in He.
+    bind_inv He as rc Hrc. check_inv He as Hz. bind_inv He as t1 Ht1. inversion He; subst.
+    right. right. left. reflexivity.
+  - (* stSei *) inversion E2; subst cm. unfold stsei_execute in He.
+    check_inv He as Hz. bind_inv He as t1 Ht1. inversion He; subst. left. reflexivity.
+Qed.
+
+(** C02: Bond / BondForStSei / BondRewards / CheckSlashing transactions *)
+Corollary hub_pricing_tx_books w sender hm funds w' tr :
+  EntWf w -> is_pricing hm = true ->
+  run tx_fuel w [(sender, MWasm A_hub (WHub hm) funds)] [] = Some (w', tr) ->
+  Books w'.
+Proof.
+  intros HE Hp H. eapply tx_books_after_pricing; [exact HE|exact H|].
+  eapply pricing_in_trace.
+  - eapply run_stack_in_trace; [exact H|]. left. left. reflexivity.
+  - unfold is_pricing_msg. cbn [snd]. rewrite N.eqb_refl. exact Hp.
+Qed.
+
+(** C02: Unbond and Convert transactions (cw20 Send of bSei / stSei to the hub) *)
+Corollary token_send_tx_books w sender target amt hk funds w' tr :
+  EntWf w -> target = A_bsei \/ target = A_stsei -> hk = HkUnbond \/ hk = HkConvert ->
+  run tx_fuel w [(sender, MWasm target (WCw20 (CSend A_hub amt hk)) funds)] [] = Some (w', tr) ->
+  Books w'.
+Proof.
+  intros HE Ht Hk H. eapply tx_books_after_pricing; [exact HE|exact H|].
+  eapply pricing_in_trace; [eapply token_send_reaches_hub; eauto|].
+  unfold is_pricing_msg. cbn [snd]. rewrite N.eqb_refl. destruct Hk as [->| ->]; reflexivity.
+Qed.
+
+(** ** exact form: delegated - booked is unchanged by every transaction that starts within [Books]
+    (envelope E4: the hub's coin is the staking coin) *)
+Fixpoint DUFirst (stk : list (addr * cmsg)) : Prop :=
+  match stk with
+  | [] => True
+  | sm :: r => if hub_du sm then DUFirst r else NoHubDU r
+  end.
+
+Lemma NoHubDU_DUFirst stk : NoHubDU stk -> DUFirst stk.
+Proof.
+  induction 1 as [|sm l Hsm Hl IH]; cbn [DUFirst]; [exact I|]. rewrite Hsm. exact Hl.
+Qed.
+
+Lemma DUFirst_hub_out o rest : DUFirstL o -> NoHubDU rest -> DUFirst (map (fun x => (A_hub, x)) o ++ rest).
+Proof.
+  intros (a & b & -> & Ha & Hb) Hr. rewrite map_app, <- app_assoc.
+  induction Ha as [|m a Hm Ha IH]; cbn [map app].
+  - apply NoHubDU_DUFirst. apply Forall_app. split; [apply NoHubDU_hub; exact Hb|exact Hr].
+  - cbn [DUFirst]. unfold hub_du at 1. cbn [fst snd]. rewrite N.eqb_refl, Hm. cbn [andb]. exact IH.
+Qed.
+
+Lemma hub_execute_underlying w h self sender funds m h' out :
+  hub_execute w h self sender funds m = Some (h', out) ->
+  hp_underlying (h_params h') = hp_underlying (h_params h).
+Proof.
+  intros H. destruct (is_admin_msg m) eqn:Ha.
+  - unfold hub_execute in H. destruct m; try discriminate Ha.
+    + apply update_params_spec in H. destruct H as (_ & _ & _ & _ & ->). reflexivity.
+    + check_inv H as Hp. apply update_config_spec in H. destruct H as (_ & _ & _ & Hpar & _).
+      rewrite Hpar. reflexivity.
+    + check_inv H as Hp. check_inv H as Hs. inversion H; subst. reflexivity.
+    + check_inv H as Hp. check_inv H as Hs. inversion H; subst. reflexivity.
+    + destruct (paused h); [|discriminate]. inversion H; subst.
+      pose proof (migrate_params h limit) as M. cbn zeta in M. destruct M as (_ & M2 & _). exact M2.
+  - apply hub_execute_static in H; [|exact Ha]. destruct H as (_ & Hpar & _). rewrite Hpar. reflexivity.
+Qed.
+
+Definition GapS (g : N) (w : world) (stk : list (addr * cmsg)) : Prop :=
+  DelWf (w_env w) /\ DUFirst stk /\
+  forall h, w_hub w = Some h ->
+    hp_underlying (h_params h) = usei /\
+    delegated (w_env w) A_hub + pD stk = booked h + pU stk + g.
+
+Lemma step_msg_gap g w s m rest w' out :
+  GapS g w ((s, m) :: rest) -> step_msg w s m = Some (w', out) -> GapS g w' (out ++ rest).
+Proof.
+  intros (Hwf & Hdu & HB) H. apply step_msg_cases in H.
+  destruct (pDU_cons s m rest) as [ED EU]. rewrite ED, EU in HB. clear ED EU.
+  unfold GapS. rewrite pD_app, pU_app. cbn [DUFirst] in Hdu.
+  destruct H as [funds hm e1 h h' o -> Hsend Hw He -> -> | Hh Hd Hout Hst _
+                | v c e' -> He -> -> | v c e' -> He -> -> | a b c e' -> He -> ->].
+  - (* hub call: no hub staking message is pending, the check is a no-op *)
+    assert (Hhd : hub_du (s, MWasm A_hub (WHub hm) funds) = false)
+      by (unfold hub_du; cbn [fst snd is_du]; apply andb_false_r).
+    rewrite Hhd in Hdu. destruct (NoHubDU_sums _ Hdu) as [RD RU].
+    apply send_coins_static in Hsend. destruct Hsend as (_ & _ & Hdel & _).
+    destruct (HB h Hw) as [Hu Heq].
+    assert (Z : hub_d (s, MWasm A_hub (WHub hm) funds) = 0 /\ hub_u (s, MWasm A_hub (WHub hm) funds) = 0).
+    { unfold hub_d, hub_u. cbn [fst snd dmsg_amt umsg_amt]. destruct (s =? A_hub); auto. }
+    destruct Z as [Z1 Z2]. rewrite Z1, Z2, RD, RU in Heq.
+    pose proof (hub_execute_underlying _ _ _ _ _ _ _ _ He) as Hu'.
+    pose proof (hub_execute_books _ _ _ _ _ _ _ _ He) as (P & Q & Hfirst).
+    cbn [w_env w_hub set_hub set_env]. split; [eapply DelWf_same_del; eauto|].
+    split; [apply DUFirst_hub_out; assumption|].
+    intros h0 E. inversion E; subst h0. split; [congruence|].
+    rewrite pD_hub, pU_hub, RD, RU, (delegated_same_del _ _ A_hub Hdel).
+    destruct (is_pricing hm).
+    + destruct (P eq_refl) as (h1 & Hs & Eq).
+      apply slashing_noop in Hs; [|exact Hu|cbn [w_env set_env]; rewrite (delegated_same_del _ _ A_hub Hdel); lia].
+      destruct Hs as [A B]. unfold booked in *. lia.
+    + destruct (Q eq_refl) as (A & B & C). destruct (NoDU_sums _ C) as [-> ->]. unfold booked in *. lia.
+  - assert (Hhd : hub_du (s, m) = false).
+    { unfold hub_du. cbn [fst snd]. destruct m; cbn [is_du is_staking] in *; try discriminate; apply andb_false_r. }
+    rewrite Hhd in Hdu.
+    split; [eapply DelWf_same_del; eauto|].
+    split; [apply NoHubDU_DUFirst; apply Forall_app; split; [apply NoHubDU_nonhub; exact Hout|exact Hdu]|].
+    intros h E. rewrite Hh in E. destruct (HB h E) as [Hu Heq]. split; [exact Hu|].
+    destruct (pDU_nonhub _ Hout) as [-> ->]. rewrite (delegated_same_del _ _ A_hub Hd).
+    assert (Z : hub_d (s, m) = 0 /\ hub_u (s, m) = 0).
+    { unfold hub_d, hub_u. cbn [fst snd]. destruct (s =? A_hub); [|auto].
+      destruct m; cbn [dmsg_amt umsg_amt is_staking] in *; auto; discriminate. }
+    destruct Z as [Z1 Z2]. lia.
+  - (* Delegate *)
+    cbn [w_env w_hub set_env app]. apply do_delegate_spec in He.
+    destruct He as (_ & _ & _ & _ & _ & _ & Hdg & Hoth & _ & _ & _ & _ & _ & _ & _ & _ & Hwf').
+    split; [apply Hwf'; exact Hwf|].
+    unfold hub_du in Hdu. unfold hub_d, hub_u in HB. cbn [fst snd is_du dmsg_amt umsg_amt] in *.
+    destruct (s =? A_hub) eqn:Es; cbn [andb] in Hdu.
+    + apply N.eqb_eq in Es. subst s. split; [exact Hdu|].
+      intros h E. destruct (HB h E) as [Hu Heq]. split; [exact Hu|]. rewrite Hdg.
+      cbn [pD pU map sumN]. lia.
+    + apply N.eqb_neq in Es. split; [apply NoHubDU_DUFirst; exact Hdu|].
+      intros h E. destruct (HB h E) as [Hu Heq]. split; [exact Hu|].
+      unfold delegated. rewrite Hoth by congruence. fold (delegated (w_env w) A_hub).
+      cbn [pD pU map sumN]. lia.
+  - (* Undelegate *)
+    cbn [w_env w_hub set_env app]. apply do_undelegate_spec in He; [|exact Hwf].
+    destruct He as (_ & _ & _ & _ & _ & _ & Hdg & Hoth & _ & _ & _ & _ & _ & _ & _ & Hwf').
+    split; [exact Hwf'|].
+    unfold hub_du in Hdu. unfold hub_d, hub_u in HB. cbn [fst snd is_du dmsg_amt umsg_amt] in *.
+    destruct (s =? A_hub) eqn:Es; cbn [andb] in Hdu.
+    + apply N.eqb_eq in Es. subst s. split; [exact Hdu|].
+      intros h E. destruct (HB h E) as [Hu Heq]. split; [exact Hu|]. cbn [pD pU map sumN]. lia.
+    + apply N.eqb_neq in Es. split; [apply NoHubDU_DUFirst; exact Hdu|].
+      intros h E. destruct (HB h E) as [Hu Heq]. split; [exact Hu|].
+      unfold delegated. rewrite Hoth by congruence. fold (delegated (w_env w) A_hub).
+      cbn [pD pU map sumN]. lia.
+  - (* Redelegate *)
+    cbn [w_env w_hub set_env app]. apply do_redelegate_spec in He; [|exact Hwf].
+    destruct He as (_ & _ & _ & _ & _ & _ & _ & _ & _ & Hdg & Hoth & _ & _ & _ & _ & _ & _ & _ & _ & Hwf').
+    split; [exact Hwf'|].
+    assert (Hhd : hub_du (s, MRedelegate a b c) = false) by (unfold hub_du; cbn [fst snd is_du]; apply andb_false_r).
+    rewrite Hhd in Hdu. split; [apply NoHubDU_DUFirst; exact Hdu|].
+    intros h E. destruct (HB h E) as [Hu Heq]. split; [exact Hu|].
+    unfold hub_d, hub_u in Heq. cbn [fst snd dmsg_amt umsg_amt] in Heq.
+    assert (Hsame : delegated e' A_hub = delegated (w_env w) A_hub).
+    { destruct (s =? A_hub) eqn:Es.
+      - apply N.eqb_eq in Es. subst s. exact Hdg.
+      - apply N.eqb_neq in Es. unfold delegated. rewrite Hoth by congruence. reflexivity. }
+    rewrite Hsame. cbn [pD pU map sumN]. destruct (s =? A_hub); lia.
+Qed.
+
+(** C02 (exact form) / C13: starting within [Books], a successful transaction changes the delegated
+    and the booked stake by the same amount — bonds add the payment to both, undelegations subtract the
+    same amount from both, redelegations and conversions change neither *)
+Theorem tx_gap_preserved w sender target m funds w' tr h h' :
+  DelWf (w_env w) -> w_hub w = Some h -> hp_underlying (h_params h) = usei ->
+  booked h <= delegated (w_env w) A_hub ->
+  run tx_fuel w [(sender, MWasm target m funds)] [] = Some (w', tr) ->
+  w_hub w' = Some h' ->
+  booked h' <= delegated (w_env w') A_hub /\
+  delegated (w_env w') A_hub - booked h' = delegated (w_env w) A_hub - booked h.
+Proof.
+  intros Hwf Hh Hu HB H Hh'.
+  assert (G : GapS (delegated (w_env w) A_hub - booked h) w' []).
+  { eapply (run_preserves_stack (GapS (delegated (w_env w) A_hub - booked h))); [| |exact H].
+    - intros. eapply step_msg_gap; eauto.
+    - split; [exact Hwf|]. split.
+      + cbn [DUFirst]. unfold hub_du. cbn [fst snd is_du]. rewrite andb_false_r. constructor.
+      + intros h0 E. rewrite Hh in E. inversion E; subst h0. split; [exact Hu|].
+        unfold pD, pU, hub_d, hub_u. cbn [map sumN fst snd dmsg_amt umsg_amt].
+        destruct (sender =? A_hub); lia. }
+  destruct G as (_ & _ & G). destruct (G h' Hh') as [_ Heq].
+  unfold pD, pU in Heq. cbn [map sumN] in Heq. lia.
+Qed.
